@@ -64,7 +64,7 @@ Section Inst.
 
   Definition group_guards : list bool :=
     let l := parse mn cl st doc in
-    [ guard_F13e (snd gc); true; true ]   (* bit 1 = F13e (names = raw component schema names); bits 2-3 unused *).
+    [ true; true; true ]   (* bit 1 was F13e (fixed) *).
 End Inst.
 
 Definition run_groups (cases : list (ginput * gobs)) : list N :=
